@@ -213,15 +213,58 @@ class SedRead(Contract):
         ci = c.interp.repo.find_class(SED)
         return dict(cls=ClassVal(ci), filename='x_sed.fits', unit_wav=U['micron'], unit_freq=U['Hz'], unit_flux=ub, order=order)
 
+    def _file(self, c, a):
+        """The content of the file named by the call.  While verifying SED.read itself it is the set-up's file;
+        at a call site it is fresh symbolic content (one per call).  Files of one package share the number of
+        wavelengths and apertures when the caller's contract declares `interp.shared_sed_grid` (the per-file
+        format stores every SED on arrays of the same length; the VALUES of the grid may differ per file)."""
+        if hasattr(self, 'file'):
+            return self.file          # set by setup(): this contract is the one being verified
+        key = id(a.filename) if not isinstance(a.filename, str) else a.filename
+        cache = c.interp.__dict__.setdefault('_sed_files', {})
+        if key in cache and cache[key][0] is a.filename:
+            return cache[key][1]
+        from sedvc.sym import fresh_name
+        tag = fresh_name('sedfile')
+        grid = getattr(c.interp, 'shared_sed_grid', None)
+        wav = nu = ap = None
+        if grid is not None:
+            A, W = grid[:2]
+            if len(grid) > 2:
+                wav, nu, ap = grid[2:5]         # the files of the package are tabulated on one common grid
+        else:
+            A, W = c.int(tag + '_n_ap'), c.int(tag + '_n_wav')
+            c.assume([A >= 1, W >= 2])
+        f = dict(wav=wav if wav is not None else c.array(tag + '_wav', (W,)), nu=nu if nu is not None else c.array(tag + '_nu', (W,)),
+                 ap=ap if ap is not None else c.array(tag + '_ap', (A,)),
+                 flux=c.array(tag + '_flux', (A, W)), err=c.array(tag + '_err', (A, W)), ua=FLUX_UNITS['mJy'], dist=c.real(tag + '_dist_cm'),
+                 name=c.int(tag + '_name'))
+        cache[key] = (a.filename, f)
+        return f
+
     def requires(self, c, a):
-        f = self.file
+        f = self._file(c, a)
         nu, wav = c.A(f['nu']), c.A(f['wav'])
         return {'positive': [c.forall(nu.n, lambda k: band(nu[k] > 0, wav[k] > 0), 'nu,wav>0'), f['dist'] > 0],
-                # the stored axis is monotone, and wavelength decreases when frequency increases
-                'consistent_axis': c.forall([nu.n, nu.n], lambda k, l: implies(k < l, band(bnot(nu[k] == nu[l]), (nu[k] < nu[l]) == (wav[k] > wav[l]))), 'axis')}
+                # the stored axis is strictly monotone, and wavelength decreases when frequency increases
+                'consistent_axis': [
+                                    c.forall([nu.n, nu.n], lambda k, l: implies(k < l, band(band(bnot(nu[k] == nu[l]), bnot(wav[k] == wav[l])), (nu[k] < nu[l]) == (wav[k] > wav[l]))), 'axis'),
+                                    c.forall([nu.n, nu.n, nu.n], lambda k, l, m: implies(band(k < l, l < m), (nu[k] < nu[l]) == (nu[l] < nu[m])), 'monotone')]}
+
+    def result(self, c, a):
+        # at a call site: a fresh SED object whose fields are related to the file content by `ensures`
+        f = self._file(c, a)
+        A, W = c.A(f['ap']).n, c.A(f['wav']).n
+        from sedvc.sym import fresh_name
+        tag = fresh_name('sed')
+        sed = c.obj(SED, name=f.get('name', Opaque('str', tag)), distance=Quantity(f['dist'], U['cm']),
+                    _wav=Quantity(c.fresh_array(tag + '_wav', (W,)), a.unit_wav), _nu=Quantity(c.fresh_array(tag + '_nu', (W,)), a.unit_freq),
+                    _apertures=Quantity(f['ap'], U['au']),
+                    _flux=Quantity(c.fresh_array(tag + '_flux', (A, W)), a.unit_flux), _error=Quantity(c.fresh_array(tag + '_err', (A, W)), a.unit_flux))
+        return sed
 
     def ensures(self, c, a, result, old):
-        f = self.file
+        f = self._file(c, a)
         nu, wav, F, E = c.A(f['nu']), c.A(f['wav']), c.A(f['flux']), c.A(f['err'])
         n = nu.n
         r_nu, r_wav = c.attr(result, '_nu'), c.attr(result, '_wav')
@@ -233,7 +276,10 @@ class SedRead(Contract):
         out = {'axis_lengths': band(compare('==', RN.n, n), compare('==', RW.n, n)),
                'wavelengths': c.forall(n, lambda k: RW[k] * r_wav.unit.scale == wav[src(k)] * U['micron'].scale, 'wav'),
                'frequencies': c.forall(n, lambda k: RN[k] * r_nu.unit.scale == nu[src(k)] * U['Hz'].scale, 'nu'),
-               'requested_order': (RN[0] <= RN[n - 1]) if a.order == 'nu' else (RW[0] <= RW[n - 1])}
+               'requested_order': (RN[0] <= RN[n - 1]) if a.order == 'nu' else (RW[0] <= RW[n - 1]),
+               # ... along the whole axis: strictly increasing frequency (order='nu') or wavelength (order='wav')
+               'sorted_axis': c.forall([n, n], lambda k, l: implies(k < l, (RN[k] < RN[l]) if a.order == 'nu' else (RW[k] < RW[l])), 'sorted'),
+               'other_axis_opposite': c.forall([n, n], lambda k, l: implies(k < l, (RW[k] > RW[l]) if a.order == 'nu' else (RN[k] > RN[l])), 'opposite')}
         for nm, T in (('_flux', F), ('_error', E)):
             q = c.attr(result, nm)
             G = c.A(q)
